@@ -298,6 +298,9 @@ def run_scenario(scn, seed, pct=0, choices=None, preempt=None):
     ENV = E
     saved = (A.Lock, A.aio)
     A.Lock = lambda: ILock(E)
+    saved_rlock = getattr(A, 'RLock', None)
+    if saved_rlock is not None:
+        A.RLock = lambda: ILock(E)          # whichever kind of lock the wrapper creates is this cooperative one
     proxy = AioProxy('asyncio')
     proxy.Event = type('IEventE', (IEvent,), {'E': E})
     A.aio = proxy
@@ -345,6 +348,8 @@ def run_scenario(scn, seed, pct=0, choices=None, preempt=None):
         w = A.threadsafe_async_cache(f, cache=cache)
     finally:
         A.Lock = saved[0]
+        if saved_rlock is not None:
+            A.RLock = saved_rlock
     cells = dict(zip(w.__code__.co_freevars, w.__closure__))
     if 'events' not in cells or not isinstance(cells['events'].cell_contents, dict):
         A.aio = saved[1]
